@@ -325,6 +325,16 @@ def call_ext(it: Any, f: ExtV, args: List[Any], kwargs: Dict[str, Any], node: An
         if isinstance(x, TV) and x.kind == "tensor":
             return TV(T("tensor", (x.term,)), dtype=dt, shape=x.shape)
         return TV(T("tensor", (A._term(x),)), dtype=dt)
+    if name.startswith("torch.nn.Parameter.") or name.startswith("torch._utils._rebuild_parameter"):
+        # constructors / copiers of parameter objects: a fresh Parameter with an empty __dict__
+        # (nn.Parameter.__deepcopy__ does not copy instance attributes: trusted fact about torch)
+        term = T("call", (name, tuple((str(i), A._term(a)) for i, a in enumerate(args)) + tuple(sorted((k, A._term(v)) for k, v in kwargs.items()))))
+        it.log("call", node, callee=name, args=args, kwargs=kwargs, bound=None, result=term)
+        return Obj("torch.nn.Parameter", term=term)
+    if name == "torch._utils._get_obj_state" and args and isinstance(args[0], Obj):
+        return dict(args[0].attrs)
+    if name in ("collections.OrderedDict", "typing.OrderedDict") and not args:
+        return dict(kwargs)
     if name in ("torch.nn.Parameter", "torch.nn.parameter.Parameter"):
         term = T("call", (name, tuple((str(i), A._term(a)) for i, a in enumerate(args))))
         it.log("call", node, callee=name, args=args, kwargs=kwargs, bound=None, result=term)
